@@ -12,6 +12,9 @@ func Minimise(p *Plan, t *Trace, findings []Finding) *Trace {
 			return false
 		}
 		st := NewStats()
+		if c.Crash != nil {
+			c.Crash.All = false
+		}
 		var v *Violation
 		pv := safeCall(func() { v = Execute(p, c, st) })
 		if pv != nil || v == nil {
